@@ -335,11 +335,11 @@ def c11_7(ctx):
 
     def m_idx(node, ex, atoms):
         t = node.ast
-        if isinstance(t, ast.Compare) and len(t.ops) == 1 and ast.unparse(t.left) == "self.tx_in.prev_index" and "len(self.prev_tx.tx_outs)" == ast.unparse(t.comparators[0]):
-            if isinstance(t.ops[0], ast.GtE):
-                return BAD_TRUE
-            if isinstance(t.ops[0], ast.Lt):
-                return BAD_FALSE
+        r = rl.rel(t, "self.tx_in.prev_index", "len(self.prev_tx.tx_outs)")
+        if r == ">=":
+            return BAD_TRUE
+        if r == "<":
+            return BAD_FALSE
         return None
     return [
         rl.guard(ctx, spec, m_hash, what="a supplied previous transaction must hash to the input's prev_tx", key="prev-hash", sources=src),
